@@ -43,13 +43,34 @@ def _all_repo_funcs(corpus):
     return out
 
 
+_SLOT_ATTR = {}
+
+
+def slot_attr(corpus):
+    """name of the instance attribute holding the slot queue: the attribute __init__ binds to an asyncio queue
+    (`self.<attr> = asyncio.PriorityQueue(maxsize=..)`); `_slots` on the tree the rules were designed against"""
+    key = id(corpus)
+    if key not in _SLOT_ATTR:
+        init = corpus.func('repository', 'Repository.__init__')
+        found = []
+        for n in walk_local(init.node):
+            if isinstance(n, ast.Assign) and isinstance(n.value, ast.Call) and (dotted(n.value.func) or '').endswith('Queue'):
+                for t in n.targets:
+                    if isinstance(t, ast.Attribute) and isinstance(t.value, ast.Name) and t.value.id == 'self':
+                        found.append(t.attr)
+        if len(found) != 1:
+            raise AnalysisError(f'C09: expected exactly one queue attribute bound in Repository.__init__ (the slot queue), found {found}')
+        _SLOT_ATTR[key] = found[0]
+    return _SLOT_ATTR[key]
+
+
 def slot_acquirers(corpus):
     cls = repo_cls(corpus)
     out = []
     for m in cls.methods.values():
         names = m.decorator_names()
         if any(n.endswith('contextmanager') for n in names):
-            if any(isinstance(a, ast.Attribute) and a.attr == '_slots' for a in ast.walk(m.node)):
+            if any(isinstance(a, ast.Attribute) and a.attr == slot_attr(corpus) for a in ast.walk(m.node)):
                 out.append(m)
     return out
 
@@ -102,11 +123,12 @@ def r1_enclosure(ctx):
 
 
 def r2_release(ctx, acq):
+    SA = slot_attr(ctx.corpus)
     for a in acq:
         ctx.analysed(a)
         gets = []
         for st in a.node.body:
-            if isinstance(st, ast.Assign) and any(isinstance(x, ast.Attribute) and x.attr == '_slots' for x in ast.walk(st.value)):
+            if isinstance(st, ast.Assign) and any(isinstance(x, ast.Attribute) and x.attr == SA for x in ast.walk(st.value)):
                 gets.append(st)
         ok = False
         why = 'no `slot = ... self._slots.get() ...` assignment found'
@@ -116,7 +138,7 @@ def r2_release(ctx, acq):
         def _from_slots(e, depth=0):
             if depth > 4:
                 return False
-            if any(isinstance(x, ast.Attribute) and x.attr == '_slots' for x in ast.walk(e)):
+            if any(isinstance(x, ast.Attribute) and x.attr == SA for x in ast.walk(e)):
                 return True
             return any(_from_slots(d, depth + 1) for x in ast.walk(e) if isinstance(x, ast.Name) for d in [deref(a.node, x)] if d is not x)
 
@@ -129,9 +151,9 @@ def r2_release(ctx, acq):
                     puts = []
                     for c in [c for s in t.finalbody for c in calls_in(s)]:
                         d = dotted(c.func) or ''
-                        if d.endswith('_slots.put_nowait') or d.endswith('_slots.put'):
+                        if d.endswith(SA + '.put_nowait') or d.endswith(SA + '.put'):
                             puts.append(c.args[0] if c.args else None)
-                        elif d.endswith('call_soon_threadsafe') and c.args and (dotted(c.args[0]) or '').endswith('_slots.put_nowait'):
+                        elif d.endswith('call_soon_threadsafe') and c.args and (dotted(c.args[0]) or '').endswith(SA + '.put_nowait'):
                             puts.append(c.args[1] if len(c.args) > 1 else None)
                     if any(isinstance(p, ast.Name) and p.id == var for p in puts):
                         # the finally must put back unconditionally
@@ -634,16 +656,17 @@ def r8_tokens(ctx):
     corpus = ctx.corpus
     init = corpus.func('repository', 'Repository.__init__')
     ctx.analysed(init)
+    SA = slot_attr(corpus)
     q = None
     for n in walk_local(init.node):
-        if isinstance(n, ast.Assign) and any(isinstance(t, ast.Attribute) and t.attr == '_slots' for t in n.targets) and isinstance(n.value, ast.Call):
+        if isinstance(n, ast.Assign) and any(isinstance(t, ast.Attribute) and t.attr == SA for t in n.targets) and isinstance(n.value, ast.Call):
             q = n.value
     if q is None:
         raise AnalysisError('C09.R8: self._slots construction not found in __init__')
     ms = kwarg(q, 'maxsize') or (q.args[0] if q.args else None)
     ok_max = isinstance(ms, ast.Name) and ms.id == 'concurrent'
     ctx.check(ok_max, 'C09.R8', f'{func_label(init)}|slot-queue-maxsize', loc(init, q), 'slot queue maxsize = concurrent', f'slot queue maxsize is {src(ms) if ms is not None else "unbounded"}')
-    loops = [n for n in walk_local(init.node) if isinstance(n, ast.For) and any((dotted(c.func) or '').endswith('_slots.put_nowait') for c in calls_in(n))]
+    loops = [n for n in walk_local(init.node) if isinstance(n, ast.For) and any((dotted(c.func) or '').endswith(SA + '.put_nowait') for c in calls_in(n))]
     if len(loops) != 1:
         raise AnalysisError(f'C09.R8: expected one token-filling loop, found {len(loops)}')
     lp = loops[0]
@@ -667,7 +690,7 @@ def r8_tokens(ctx):
                     verdict = k == 0
     if verdict is None:
         raise AnalysisError(f'C09.R8: unrecognised token loop shape `{src(it)}`')
-    puts = [c for c in calls_in(lp) if (dotted(c.func) or '').endswith('_slots.put_nowait')]
+    puts = [c for c in calls_in(lp) if (dotted(c.func) or '').endswith(SA + '.put_nowait')]
     one_per_iter = len(puts) == 1 and getattr(enclosing_stmt(puts[0]), '_parent', None) is lp
     ctx.check(
         verdict and one_per_iter,
